@@ -13,6 +13,7 @@ import (
 
 	"github.com/tetratelabs/wazero/api"
 	"github.com/tetratelabs/wazero/experimental"
+	"github.com/tetratelabs/wazero/internal/engine/interpreter"
 	"github.com/tetratelabs/wazero/internal/engine/wazevo/ssa"
 	"github.com/tetratelabs/wazero/internal/engine/wazevo/wazevoapi"
 	"github.com/tetratelabs/wazero/internal/leb128"
@@ -67,6 +68,7 @@ type vWorld struct {
 	steps    int
 	depth    int
 	unsupp   string
+	exitWord uint64
 }
 
 func (w *vWorld) memBase() uint64 { return vMemBase0 + w.epoch*vMemEpoch }
@@ -147,6 +149,9 @@ func (w *vWorld) loadCtx(addr uint64, width uint64) (uint64, bool) {
 		return (cell >> (8 * (d & 7))) & widthMask(width), true
 	}
 	if d := addr - vExecCtxBase; d < 4096 {
+		if wazevoapi.Offset(d&^7) == wazevoapi.ExecutionContextOffsetStackBottomPtr {
+			return 0, true // a large stack: the prologue's stack-bound check passes
+		}
 		// trampoline addresses and friends: the value identifies the slot
 		return vTagBase + (d &^ 7), true
 	}
@@ -206,7 +211,10 @@ func (w *vWorld) store(addr, width, v uint64) {
 		return
 	}
 	if d := addr - vExecCtxBase; d < 4096 {
-		return // exit code / saved state bookkeeping
+		if d == 0 {
+			w.exitWord = v // machine code stores the exit code here before the exit sequence
+		}
+		return // other stores: saved state bookkeeping
 	}
 	d, ok := w.memAccess(addr, width)
 	if !ok {
@@ -678,4 +686,103 @@ func b2u64(b bool) uint64 {
 		return 1
 	}
 	return 0
+}
+
+// VerifCompileForBackend runs the real front end and SSA passes on local function idx of bin and returns the builder,
+// ready to be handed to a back end (used by the amd64 harness).
+func VerifCompileForBackend(bin []byte, idx int) (ssa.Builder, error) {
+	w, err := vCompile(bin, false, false)
+	if err != nil {
+		return nil, err
+	}
+	return w.funcs[idx].b, nil
+}
+
+// ---- exported view of the memory/context model for the machine-level evaluator (amd64 harness)
+
+type VWorld = vWorld
+
+const (
+	VModCtxBase  = vModCtxBase
+	VExecCtxBase = vExecCtxBase
+	VTagBase     = vTagBase
+)
+
+func VCompile(bin []byte) (*VWorld, error)                 { return vCompile(bin, false, false) }
+func (w *vWorld) Builder(i int) ssa.Builder                  { return w.funcs[i].b }
+func (w *vWorld) NumFuncs() int                              { return len(w.funcs) }
+func (w *vWorld) ImportCount() uint32                        { return w.m.ImportFunctionCount }
+func (w *vWorld) Load(addr, width uint64) uint64             { return w.load(addr, width) }
+func (w *vWorld) Store(addr, width, v uint64)                { w.store(addr, width, v) }
+func (w *vWorld) Mem() []byte                                { return w.mem }
+func (w *vWorld) SetMem(b []byte, maxPages uint32)           { w.mem, w.memMax = b, maxPages }
+func (w *vWorld) Moved()                                     { w.epoch++ }
+func (w *vWorld) Unsupported() string                        { return w.unsupp }
+func (w *vWorld) MarkUnsupported(s string)                   { w.unsupported(s) }
+func (w *vWorld) Global(i int) uint64                        { return w.globals[i].lo }
+func (w *vWorld) LoadExit() uint64                          { return w.exitWord }
+func (w *vWorld) Closed() bool                               { return w.closed != 0 }
+func (w *vWorld) ParamTypes(i int) []wasm.ValueType          { return w.funcs[i].typ.Params }
+func (w *vWorld) ResultTypes(i int) []wasm.ValueType         { return w.funcs[i].typ.Results }
+
+// Grow performs memory.grow as the trampoline would; returns the previous size in pages or 0xffffffff.
+func (w *vWorld) Grow(delta uint64) uint64 {
+	old := uint64(len(w.mem)) >> 16
+	r := uint64(0xffffffff)
+	if old+delta <= uint64(w.memMax) {
+		r = old
+		w.mem = append(w.mem, make([]byte, delta<<16)...)
+	}
+	w.epoch++
+	return r
+}
+
+// EvalSSA evaluates local function idx on the optimised SSA; returns results, outcome and exit code.
+func (w *vWorld) EvalSSA(idx int, args []uint64) ([]uint64, int, wazevoapi.ExitCode) {
+	wa := make([]vVal, len(args))
+	for i := range args {
+		wa[i] = vVal{lo: args[i]}
+	}
+	r, oc := w.call(idx, wa)
+	out := make([]uint64, len(r))
+	for i := range r {
+		out[i] = r[i].lo
+	}
+	return out, oc, w.exitCode
+}
+
+// VProgram returns program i of a named family ("T1", "T3") as a binary plus what the caller needs to drive it.
+func VProgram(set string, i int) (bin []byte, params, results []byte, mem bool, globals int, name string, count int) {
+	var ps []vProgram
+	switch set {
+	case "T1":
+		ps = vT1
+	case "T3":
+		ps = vT3
+	case "T1c":
+		ps = vT1c
+	case "T2s":
+		ps = vT2Single(vOffsetsQuick)
+	case "T2r":
+		ps = vT2Reuse([]uint32{0, 0xffff, 0x80000000, 0xfffffff8})
+	}
+	count = len(ps)
+	if i >= count {
+		return
+	}
+	p := &ps[i]
+	spec := &interpreter.VerifModuleSpec{HasMem: p.mem, MemMin: 1, MemMax: 65536}
+	spec.Funcs = append(spec.Funcs, interpreter.VerifFuncSpec{Params: p.params, Results: p.results, Locals: p.locals, Body: p.body, Export: "f"})
+	spec.Funcs = append(spec.Funcs, p.extra...)
+	for g := 0; g < p.globals; g++ {
+		spec.GlobalTypes = append(spec.GlobalTypes, i32)
+		spec.GlobalInits = append(spec.GlobalInits, int64(g+1))
+	}
+	return interpreter.VerifEncode(spec), p.params, p.results, p.mem, p.globals, p.name, count
+}
+
+// VTrapKind maps an exit code to the shared trap kinds.
+func VTrapKind(code wazevoapi.ExitCode) int {
+	w := &vWorld{exitCode: code}
+	return vTrapOf(w, vOutTrap)
 }
